@@ -207,7 +207,7 @@ func contains(xs []string, x string) bool {
 	return false
 }
 
-var nameAlphabet = []string{"0", "1", "2", "9", "a", "b", "Z", "A", ".", "-", "_", "é", "10", "02", " ", "~", "pb", ".gtfsrt", ".tmp", ".gz", ".json", "README", ".pb", "#", "%", "(1)"}
+var nameAlphabet = []string{"0", "1", "2", "9", "a", "b", "Z", "A", ".", "-", "_", "é", "10", "02", " ", "~", "pb", ".gtfsrt", ".tmp", ".gz", ".json", "README", ".pb", "#", "%", "(1)", "\xe9", "\xff\xfe", "\xc3"}
 
 func drawName(t *sim.T, used map[string]bool, i int) string {
 	for attempt := 0; ; attempt++ {
@@ -640,13 +640,28 @@ func genC19Case(t *sim.T, tier string) *c19Case {
 		for k := t.Range(1, 2); k > 0; k-- {
 			i := t.Choose(len(c.good))
 			size := []int{70_000, 140_000, 300_000, 600_000}[t.Choose(4)] + t.Choose(5000)
-			c.good[i] = bloatFeed(c.good[i], size)
+			if t.Chance(1, 2) {
+				// a file whose total size is exactly (or one off) a power-of-two multiple: chunked readers
+				total := []int{4096, 8192, 16384, 32768, 65536, 131072, 262144}[t.Choose(7)] * (1 + t.Choose(2))
+				c.good[i] = bloatFeedTo(c.good[i], total+t.Choose(3)-1)
+				t.Probe("boundary-size-file")
+			} else {
+				c.good[i] = bloatFeed(c.good[i], size)
+			}
 			t.Probe("large-good-file")
 		}
 	}
 	nBad := t.Choose(7)
 	if !large && nGood+nBad > 14 {
 		nBad = 14 - nGood
+	}
+	// long runs of bad entries (a hundred unreadable or unparseable entries in a row, at the very beginning
+	// or somewhere in the middle), as a directory that also collects logs or temporary files has
+	badRun, badRunPrefix := 0, ""
+	if t.Chance(1, 40) {
+		badRun = []int{20, 100, 101, 150, 300}[t.Choose(5)]
+		badRunPrefix = []string{"", "0", "1705312845"}[t.Choose(3)] // sorts first / among the ordered names
+		t.Probe("long-run-of-bad-entries")
 	}
 	used := map[string]bool{}
 	ordered := t.Chance(1, 2) // names that follow time order (like real archives) or arbitrary names
@@ -659,6 +674,21 @@ func genC19Case(t *sim.T, tier string) *c19Case {
 			name = drawName(t, used, i)
 		}
 		c.entries = append(c.entries, dirEntry{name: name, kind: kGood, data: g})
+	}
+	for i := 0; i < badRun; i++ {
+		name := fmt.Sprintf("%s!bad%04d", badRunPrefix, i)
+		if used[name] {
+			continue
+		}
+		used[name] = true
+		k := []entKind{kEmpty, kGarbage, kSubdir}[i%3]
+		e := dirEntry{name: name, kind: k}
+		if k == kGarbage {
+			e.data = []byte{0xde, 0xad, byte(i)}
+		} else if k == kEmpty {
+			e.data = []byte{}
+		}
+		c.entries = append(c.entries, e)
 	}
 	for i := 0; i < nBad; i++ {
 		k := entKind(1 + t.Choose(int(numEntKinds)-1))
@@ -727,6 +757,25 @@ func bloatFeed(b []byte, size int) []byte {
 		panic("harness: " + err.Error())
 	}
 	return append(append([]byte(nil), b...), eb...)
+}
+
+// bloatFeedTo bloats a feed so that the file is exactly total bytes long (if total is large enough).
+func bloatFeedTo(b []byte, total int) []byte {
+	if total <= len(b)+64 {
+		return b
+	}
+	pad := total - len(b) - 40
+	for k := 0; k < 12; k++ {
+		out := bloatFeed(b, pad)
+		if len(out) == total {
+			return out
+		}
+		pad -= len(out) - total
+		if pad < 1 {
+			return b
+		}
+	}
+	return bloatFeed(b, pad)
 }
 
 // runOnce materialises the case, applies plan and checks everything. Returns the violation.
